@@ -143,6 +143,8 @@ Theorem C05_precedence_skip : forall ck mv,
 Proof. exact skip_settings_spec. Qed.
 Print Assumptions C05_precedence_skip.
 
+(* ------------------------------------------------------------ validated configurations *)
+
 (* config validation (warn_at < max_lines at each level): an absolute warn point that is paired with the limit
    of its own level leaves a non-empty warning range *)
 Theorem C05_validated_warn_at_below_limit : forall cfg mv,
@@ -151,6 +153,59 @@ Theorem C05_validated_warn_at_below_limit : forall cfg mv,
   (forall w, c_wa cfg = Some w -> w < c_max cfg).
 Proof. exact validated_warn_at. Qed.
 Print Assumptions C05_validated_warn_at_below_limit.
+
+(* ... and every percentage check can use, rule-level or global, is a value in [0,1] (never NaN, negative or above 1) *)
+Theorem C05_validated_thresholds_in_unit : forall cfg mv,
+  validate_content cfg = true ->
+  (forall i r t, selected (new_checker cfg) mv = Some (i, r) -> cr_wt r = Some t -> f64_in_unit t = true) /\
+  f64_in_unit (c_wt cfg) = true /\
+  f64_in_unit (warn_threshold_for (new_checker cfg) mv) = true.
+Proof. exact validated_thresholds. Qed.
+Print Assumptions C05_validated_thresholds_in_unit.
+
+Theorem C05_in_unit_excludes_nan : forall b,
+  b < 18446744073709551616 -> f64_in_unit b = true -> f64_is_nan b = false.
+Proof. exact in_unit_not_nan. Qed.
+Print Assumptions C05_in_unit_excludes_nan.
+
+(* the check command validates again after the overrides: a file is evaluated only when the configuration file
+   and the overridden configuration are both valid, with the checker built from the overridden configuration *)
+Theorem C05_check_command_evaluates_only_valid : forall cfg a ev mv ext stats r,
+  check_file cfg a ev mv ext stats = Evaluated r ->
+  validate_content cfg = true /\ validate_content (apply_cli_overrides cfg a) = true /\
+  should_process (check_checker cfg a) ev mv ext = true /\
+  r = process_for_check (check_checker cfg a) mv stats.
+Proof. exact check_file_evaluated. Qed.
+Print Assumptions C05_check_command_evaluates_only_valid.
+
+Theorem C05_check_command_config_error_iff : forall cfg a ev mv ext stats,
+  check_file cfg a ev mv ext stats = ConfigError <->
+  validate_content cfg = false \/ validate_content (apply_cli_overrides cfg a) = false.
+Proof. exact check_file_config_error. Qed.
+Print Assumptions C05_check_command_config_error_iff.
+
+(* so the validated facts hold for the overridden values too: warn_at stays below the overridden --max-lines,
+   the overridden --warn-threshold is in [0,1] *)
+Theorem C05_check_command_overrides_validated : forall cfg a ev mv ext stats r,
+  check_file cfg a ev mv ext stats = Evaluated r ->
+  let ck := check_checker cfg a in
+  (forall i cr w, selected ck mv = Some (i, cr) -> cr_wa cr = Some w -> w < cr_max cr) /\
+  (forall w, c_wa cfg = Some w -> w < opt_or (cli_max_lines a) (c_max cfg)) /\
+  f64_in_unit (ck_wt ck) = true /\
+  f64_in_unit (warn_threshold_for ck mv) = true.
+Proof. exact check_file_overrides_validated. Qed.
+Print Assumptions C05_check_command_overrides_validated.
+
+Theorem C05_check_checker_is_new_of_overridden : forall cfg a,
+  check_checker cfg a = new_checker (apply_cli_overrides cfg a).
+Proof. exact check_checker_is_new. Qed.
+Print Assumptions C05_check_checker_is_new_of_overridden.
+
+(* without override flags the two commands reject exactly the same configurations *)
+Theorem C05_commands_agree_on_validity : forall cfg ev mv ext stats,
+  check_file cfg no_overrides ev mv ext stats = ConfigError <-> explain_file cfg ev mv = None.
+Proof. exact commands_agree_on_validity. Qed.
+Print Assumptions C05_commands_agree_on_validity.
 
 (* ------------------------------------------------------------ explain coherence *)
 
@@ -315,12 +370,31 @@ Example C05_example_overrides :
 Proof. vm_compute. repeat split. Qed.
 Print Assumptions C05_example_overrides.
 
+(* 1e300, NaN as f64 bits *)
+Definition t1e300 : N := 9094988921128908188.
+Definition tnan : N := 9221120237041090560.
 Example C05_example_validation :
   validate_content ex_cfg = true /\
   validate_content (mk_config [] 5 t09 (Some 5) true true [] []) = false /\
-  validate_content (mk_config [] 5 9221120237041090560 None true true [] []) = false.
+  validate_content (mk_config [] 5 tnan None true true [] []) = false /\
+  validate_content (mk_config [] 5 t09 None true true [] [mk_rule [42] 9 (Some t1e300) None None None None]) = false /\
+  validate_content (mk_config [] 5 t09 None true true [] [mk_rule [42] 9 (Some tnan) None None None None]) = false /\
+  validate_content (mk_config [] 5 t09 None true true [] [mk_rule [42] 9 (Some t05) (Some 9) None None None]) = false.
 Proof. vm_compute. repeat split. Qed.
 Print Assumptions C05_example_validation.
+
+(* --max-lines 1 against warn_at = 3, and --warn-threshold 7.0, are configuration errors; valid overrides evaluate *)
+Definition ex_cfg_wa : config := mk_config [] 10 t09 (Some 3) true true [] [].
+Example C05_example_override_validation :
+  check_file ex_cfg_wa (mk_cli (Some 1) false false None None) [] [] None (mk_stats 2 2 0 0 0) = ConfigError /\
+  check_file ex_cfg_wa (mk_cli None false false (Some 4619567317775286272) None) [] [] None (mk_stats 2 2 0 0 0) = ConfigError /\
+  (exists r, check_file ex_cfg_wa (mk_cli (Some 4) false false (Some t05) None) [] [] None (mk_stats 5 5 0 0 0) = Evaluated r /\ res_status r = Failed) /\
+  explain_file ex_cfg_wa [] [] <> None /\
+  explain_file (mk_config [] 5 tnan None true true [] []) [] [] = None.
+Proof.
+  vm_compute. repeat split; try discriminate. eexists. split; reflexivity.
+Qed.
+Print Assumptions C05_example_override_validation.
 
 (* the verdict really depends on the count and on the limit (monotonicity is not vacuous) *)
 Example C05_example_monotone_strict :
